@@ -371,7 +371,7 @@ func Check(r *core.Run) error {
 
 // shapeFlags describes the schema for two recorded findings: whether it has an object
 // schema without declared properties (boxed as a pointer to an empty struct) and whether
-// an array component of the shared definitions is used as an array item.
+// an array component of the shared definitions (used by several referrers with different nil meanings) is referred to.
 func shapeFlags(schema any) (emptyStruct, sharedArray bool) {
 	var walk func(x any)
 	walk = func(x any) {
@@ -382,10 +382,8 @@ func shapeFlags(schema any) (emptyStruct, sharedArray bool) {
 					emptyStruct = true
 				}
 			}
-			if it, ok := t["items"].(map[string]any); ok {
-				if ref, ok := it["$ref"].(string); ok && strings.Contains(ref, "/DArr") {
-					sharedArray = true
-				}
+			if ref, ok := t["$ref"].(string); ok && strings.Contains(ref, "/DArr") {
+				sharedArray = true
 			}
 			for _, v := range t {
 				walk(v)
